@@ -23,9 +23,9 @@ META = {
             "Explored on the real implementation, every case in a CHILD process (value / error / recovered panic / fatal error / timeout observed from outside): "
             "(1) every universe built-in, every method of string/bytes/list/dict/set/time (several receivers: empty, frozen, mid-iteration, self-containing), struct, module, json/math/time members "
             "x argument tuples from a pool of ~58 edge values (quick tier: full product for arity 0-1, a 12-value boundary sub-pool for arity 2 (all callables) and arity 3 (one receiver per type), and a seeded sample with keyword arguments up to arity 4; thorough tier: full product up to arity 3); every returned value is checked for nil elements and then frozen, hashed and printed; plus block T: every text-parsing built-in (format fields/specs, % verbs, int(s, base), float(s), json.decode/indent, parse_duration, parse_time and layouts, CompiledProgram, source string literals) x digit strings around every machine boundary (2^7..2^128, 10^9..10^21, +-1, 19/20/21 digits, leading zeros, signs, blanks, 4000 digits) in every numeric position, and x every prefix / suffix / single-byte deletion of valid inputs of each decoder (for the template, expression and JSON parsers -- format, %, json.decode, starlark.Eval, ExecFile, string literals -- also every substring of the short inputs and every single token deleted / doubled); "
-            "(2) cyclic value graphs (fixed shapes + seeded random graphs, closures over still-unassigned variables included: nil cells) under str/repr/==/!=/</hash/freeze/json.encode/sorted/in/index/%-format/print, with the Coq model evaluated on the same heap "
+            "plus block O: the operators themselves (starlark.Unary / Binary / Compare: what the VM's instructions call) over the pool and integers around every representation boundary (+-2^7..+-2^64, each +-1), every result then printed, hashed, tested, frozen, added to and compared with itself; (2) cyclic value graphs (fixed shapes + seeded random graphs, closures over still-unassigned variables included: nil cells) under str/repr/==/!=/</hash/freeze/json.encode/sorted/in/index/%-format/print, with the Coq model evaluated on the same heap "
             "(predicted class value/error/never-ends must equal the observed one); "
-            "(3) source texts up to 64 KiB x FileOptions: 60+ nesting/chain/huge-literal generators at sizes up to the 64 KiB limit, generated valid programs (with closures over never / conditionally / later assigned locals reachable from globals and defaults), every prefix of three lexically dense programs and each of them with every single token deleted / doubled, token-level mutations, byte soup, each with a finite step budget.",
+            "(3) source texts up to 64 KiB x FileOptions: 60+ nesting/chain/huge-literal generators at sizes up to the 64 KiB limit, call-shape programs (about 25 kinds of callee called through the VM's CALL with f(**m), f(1, **m), f(x=1, **m), f(*s), f(*s, **m) for mappings with non-string / mixed / 300 keys / self-containing and non-mapping operands), escape programs (*args / **kwargs values returned or stored and used after the caller went on creating closures and temporaries at several operand-stack depths), generated valid programs (with closures over never / conditionally / later assigned locals reachable from globals and defaults), every prefix of three lexically dense programs and each of them with every single token deleted / doubled, token-level mutations, byte soup, each with a finite step budget.",
     "note": "Trusted: Coq kernel + vm_compute; the harness (child-process protocol, classification of a death by its stderr), the Go AST walker, this file. "
             "Not modelled: dict keys and set elements that are not atoms, Module values, the depth of the recursive-descent parser/resolver/compiler on acyclic input (only explored: 32 K nested brackets fit Go's 1 GB stack), "
             "allocation sizes. Read as outside the claim (counted in the evidence, not findings): out-of-memory deaths and `makeslice: len out of range` when the value to materialise is range(1<<62) (a single huge allocation), "
